@@ -163,8 +163,62 @@ def run_case(ci, sur, position, twin, acc):
     return found
 
 
+# ----------------------------------------------------------------------------------------
+# a string annotation names whatever its name is bound to WHEN the method is registered: the same string may
+# name different types for different methods of one function (a rebound global, functions built by exec)
+
+REBIND_CLASSES = {"K0": K0, "K1": K1, "K2": K2, "K3": K3, "int": int, "str": str}
+REBIND_FORMS = {"name": (lambda: "C15_T", lambda c: c), "tuple-member": (lambda: ("C15_T", str), lambda c: (c, str)),
+                "list-argument": (lambda: "list[C15_T]", lambda c: list[c])}
+
+
+def rebind_cases(tier):
+    names = ["K0", "K1", "K2", "int"] if tier == "quick" else list(REBIND_CLASSES)
+    for form in REBIND_FORMS:
+        for L in (2, 3):
+            for seq in itertools.product(names, repeat=L):
+                if len(set(seq)) > 1:
+                    yield form, seq
+
+
+def rebind_table(form, seq, as_string):
+    gen.factory(gen.SHAPES["x"], "plain")
+    mk_s, mk_d = REBIND_FORMS[form]
+
+    def annotate(t, c):
+        for glb in gen._FACTORY_GLOBALS:
+            glb["C15_T"] = REBIND_CLASSES[t]
+        return mk_s() if as_string else mk_d(REBIND_CLASSES[t])
+
+    mspecs = [{"id": i, "shape": gen.SHAPES["x"], "types": {"x": t}, "prio": 0} for i, t in enumerate(seq)]
+    try:
+        prog = gen.Program({}, mspecs, annotate=annotate)
+    except Exception as e:  # noqa
+        return ("build-error", type(e).__name__)
+    return tuple(norm(prog.call((v,), {})) for _, v in VALUES)
+
+
+def run_rebind(form, seq, acc):
+    a, b = rebind_table(form, seq, False), rebind_table(form, seq, True)
+    found = []
+    if acc is not None:
+        acc.count("evaluations", 2 * len(VALUES))
+        acc.count("cases")
+        acc.count("nontrivial")
+    if a != b:
+        diff = [("build", a, b)] if isinstance(a[0], str) or isinstance(b[0], str) else \
+            [(VALUES[i][0], x[:2], y[:2]) for i, (x, y) in enumerate(zip(a, b)) if x != y]
+        found.append(("string-rebound-between-registrations", {"form": form, "sequence": list(seq), "differences": [list(map(str, d)) for d in diff[:4]]}))
+        if acc is not None:
+            acc.violation({"rebind": True, "form": form, "sequence": list(seq)}, found[0][0], found[0][1])
+    return found
+
+
 def shard(shard, nshards, tier, seed):
     acc = core.Acc(PROP)
+    for idx, (form, seq) in enumerate(rebind_cases(tier)):
+        if idx % nshards == shard:
+            run_rebind(form, seq, acc)
     for idx, (ci, sur, position, twin) in enumerate(cases(tier)):
         if idx % nshards != shard:
             continue
@@ -177,6 +231,8 @@ def shard(shard, nshards, tier, seed):
 
 
 def replay(case):
+    if case.get("rebind"):
+        return run_rebind(case["form"], tuple(case["sequence"]), None)
     return run_case(case["class"], tuple(tuple(s) for s in case["surrounding"]), case["position"], None, None)
 
 
@@ -189,6 +245,8 @@ def main(tier):
              "Annotated; every form also written as a string annotation; list[A] / typing.List[A]; Literal value orders incl. mixed types; union with a builtin) x "
              "surroundings (none; every single method of a pool at priority 0 / 1 / -1; pairs; the other spelling of the same "
              "annotation, which must act as a re-registration) x registered first or last x every corpus value; oracle: the outcome "
-             "tables of all spellings of a class are identical; non-trivial = every case compares >= 2 spellings",
+             "tables of all spellings of a class are identical; plus: one string name rebound to a different class before each of 2-3 "
+             "registrations on one function (as the whole annotation, as a member of a tuple, as the argument of list[...]) must behave "
+             "like the classes written directly; non-trivial = every case compares >= 2 spellings",
         assumptions=["purely differential: no reference model involved"],
     )
